@@ -17,6 +17,8 @@ For every input sequence of the ports (unbounded length, any traffic) on the com
                                  owes) AUTO REFRESH commands have been taken from the refresher;
  * `refresh_rate`                hence  postponing·⌊t/(postponing·tREFI)⌋ − postponing ≤ #REF(t) ≤ postponing·⌊t/(postponing·tREFI)⌋:
                                  never more than `postponing` refreshes are owed, the long-run rate is exactly one per tREFI;
+ * `refresh_episode_ends`        from every reachable state the refresher is back in IDLE (multiplexer out of REFRESH, bank machines
+                                 released) within psiMax + 2 + postponing·(tRP+tRFC+1) + ZQCS length cycles: traffic resumes;
  * `refresh_deadline`            **the k-th AUTO REFRESH (k ≥ 1) has been issued by cycle (k + postponing)·tREFI + lat0 +
                                  postponing·(tRP+tRFC+1)**, with the fixed service latency lat0 = psiMax + 2 + (tRP+tZQCS+1 if ZQCS)
                                  (`refresh_deadline_qr`: refresh r+1 of the (q+1)-th request at most lat0 + (r+1)·(tRP+tRFC+1)
@@ -92,6 +94,34 @@ theorem refresh_rate (c : Controller.Cfg) (hwf : CtlInv.WF c) (hb : Budget c) (h
     refCount c (init c) inputs ≤ c.rf.postponing * (inputs.length / (c.rf.postponing * c.rf.tREFI)) := by
   obtain ⟨h1, h2⟩ := refresh_accounting c hwf hb hwr inputs hins
   constructor <;> omega
+
+/-- **every refresh episode ends** ("traffic resumes afterwards"): from every reachable state the refresher is back in IDLE -
+and with it the multiplexer out of REFRESH and the bank machines released (C02's `CInv.idle`) - within
+`psiMax + 2 + postponing·(tRP+tRFC+1) + ZQCS length` cycles, whatever the ports do -/
+theorem refresh_episode_ends (c : Controller.Cfg) (hwf : CtlInv.WF c) (hb : Budget c) (pre post : List (Array BankIn))
+    (hpre : ∀ ins ∈ pre, InsOk c ins) (hpost : ∀ ins ∈ post, InsOk c ins)
+    (hlen : psiMax c + 2 + c.rf.postponing * M c.rf + zqLen c.rf ≤ post.length) :
+    ∃ k, k ≤ psiMax c + 2 + c.rf.postponing * M c.rf + zqLen c.rf ∧
+      (C04.runCtl c (C04.runCtl c (init c) pre) (post.take k)).rf.fsm = .idle := by
+  obtain ⟨g, w, hnl⟩ := nl_reachable c hwf hb pre hpre
+  have hP := hwf.rf.post
+  -- epi ≤ E0 + 1: from `epi + slack ≤ Tr ≤ P·tREFI`
+  have hbound : epi c (C04.runCtl c (init c) pre) w ≤ psiMax c + 2 + c.rf.postponing * M c.rf + zqLen c.rf := by
+    have hmain := hnl.main
+    have h1 := hnl.rng.1; have h2 := hnl.rng.2
+    have hTr : Tr c.rf (C04.runCtl c (init c) pre).rf ≤ c.rf.postponing * c.rf.tREFI := by
+      simp only [Tr]
+      have : (C04.runCtl c (init c) pre).rf.postCount * c.rf.tREFI ≤ (c.rf.postponing - 1) * c.rf.tREFI := Nat.mul_le_mul_right _ (by omega)
+      have e : c.rf.postponing * c.rf.tREFI = (c.rf.postponing - 1) * c.rf.tREFI + c.rf.tREFI := by
+        have : c.rf.postponing = (c.rf.postponing - 1) + 1 := by omega
+        conv => lhs; rw [this, Nat.add_mul, Nat.one_mul]
+      omega
+    unfold Budget at hb
+    by_cases hi : (C04.runCtl c (init c) pre).rf.fsm = .idle
+    · simp only [epi, hi]; omega
+    · simp only [hi, if_false, slack] at hmain; omega
+  obtain ⟨k, hk, hkf⟩ := reach_idle c hwf hb post _ g w hnl hpost (by omega)
+  exact ⟨k, by omega, hkf⟩
 
 /-- fixed service latency of the deadline theorem: the worst-case wait for the bus and a ZQ calibration -/
 def lat0 (c : Controller.Cfg) : Nat := psiMax c + 2 + zqLen c.rf
